@@ -59,6 +59,8 @@ func (p Param) TypeStringEllipsis() string {
 // will return "int". If the parameter is not variadic, this will behave the same
 // as `TypeString`.
 func (p Param) TypeStringVariadicUnderlying() string {
-	typeString := p.TypeStringEllipsis()
-	return strings.Replace(typeString, "...", "", 1)
+	if !p.Variadic {
+		return p.TypeString()
+	}
+	return strings.TrimPrefix(p.TypeStringEllipsis(), "...")
 }
